@@ -140,8 +140,14 @@ def run(p, report, tier):
         for n in ast.walk(fit.node):
             if isinstance(n, ast.Assign) and any(isinstance(t, ast.Attribute) and t.attr == attr for t in n.targets) \
                     and isinstance(n.value, ast.IfExp):
+                masks = {t.id for a in ast.walk(fit.node) if isinstance(a, ast.Assign) and any(
+                    isinstance(c, ast.Call) and c01.callname(c) == "is_labeled" for c in ast.walk(a.value))
+                    for t in a.targets if isinstance(t, ast.Name)}
+                masked_body = any(isinstance(x, ast.Subscript) and isinstance(x.slice, ast.Name) and x.slice.id in masks
+                                  for x in ast.walk(n.value.body)) and not any(
+                    isinstance(x, ast.Call) and c01.callname(x) in ("nanmean", "nanstd", "nanvar") for x in ast.walk(n.value.body))
                 form = ast.unparse(n.value.orelse) == dflt and "np.sum(" in ast.unparse(n.value.test) and \
-                    ast.unparse(n.value.test).replace(" ", "").endswith(">" + thresh)
+                    ast.unparse(n.value.test).replace(" ", "").endswith(">" + thresh) and masked_body
         report.add("R15.4", fit.qual, f"self.{attr} defined on every path with default {dflt}", f"{fit.file}:{fit.node.lineno}",
                    okd and form, detail=f"defined on all paths={okd}, default form={form}")
     for f in (pred, sy, prd, smp, fit):
